@@ -49,7 +49,7 @@ def _case(draw, tier):
         mesh["nodes"] = [mesh["nodes"][o] for o in used]
         mesh["faces"] = [[remap[i] for i in mesh["faces"][0]]]
     else:
-        mesh = draw(meshgen.any_mesh(max_pts=34 if big else 16, tiny=True))
+        mesh = draw(meshgen.any_mesh(max_pts=34 if big else 16, tiny=True, polar=True))
     mode = draw(sampled_from(["face", "face", "face", "node", "edge"]))
     nf = len(mesh["faces"])
     c = {
